@@ -52,23 +52,23 @@ func c06Blocks(r *RNG, n int) []Blk {
 	return out
 }
 
-func runCrashSession(c *Ctx, s crashSess, step int, what string) {
-	f0, log, err := observeWrites(c.Work, s)
+func c06RunSession(c *Ctx, s c06Sess, step int, what string) {
+	f0, log, err := c06ObserveWrites(c.Work, s)
 	if err != nil {
 		c.Count("session:does-not-open")
 		return
 	}
-	c.Emit("crash", crashWritesCase(s), mergedOps(s, log), len(s.puts) > 0)
+	c.Emit("crash", c06WritesCase(s), c06MergedOps(s, log), len(s.puts) > 0)
 	c.Count("session:" + what)
-	total := totalUnits(log)
+	total := c06TotalUnits(log)
 	xd := []byte("verif-c06-continuation")
 	x := Blk{mkCid(1, 0x55, mh.SHA2_256, -1, xd), xd}
 	for u := 0; u <= total; u += step {
-		img := crashImage(f0, log, u)
-		out, insp := reopenImage(c.Work, s, img, x)
-		c.Emit("crash", crashImageCase(s, u, img, x, insp), crashObs(out), len(s.puts) > 0 && u > 0 && u < total)
+		img := c06Image(f0, log, u)
+		out, insp := c06ReopenImage(c.Work, s, img, x)
+		c.Emit("crash", c06ImageCase(s, u, img, x, insp), c06Obs(out), len(s.puts) > 0 && u > 0 && u < total)
 		c.Count("image")
-		if tagOf(out.(VL)[0]) == "err" {
+		if crTagOf(out.(VL)[0]) == "err" {
 			c.Count("image:reopen-refused")
 		} else {
 			c.Count("image:reopen-ok")
@@ -86,7 +86,7 @@ func init() {
 			if c.Thorough && i >= 2*len(rows) {
 				o = genWOpts(r)
 			}
-			s := crashSess{kind: uint64((i/len(rows) + i) % 2), o: o, fin: !(i%5 == 4)}
+			s := c06Sess{kind: uint64((i/len(rows) + i) % 2), o: o, fin: !(i%5 == 4)}
 			nb := 2 + r.Intn(2)
 			s.puts = c06Blocks(r, nb)
 			switch r.Intn(3) {
@@ -100,10 +100,10 @@ func init() {
 			what := "fresh"
 			if i%3 == 2 {
 				// the crashing process itself started by resuming
-				s.pre = []seg{{cut: pick(r, []string{"discard", "finalize"}), blks: c06Blocks(r, 1+r.Intn(2))}}
+				s.pre = []crSeg{{cut: pick(r, []string{"discard", "finalize"}), blks: c06Blocks(r, 1+r.Intn(2))}}
 				what = "resumed-after-" + s.pre[0].cut
 			}
-			runCrashSession(c, s, 1, what)
+			c06RunSession(c, s, 1, what)
 		}
 	})
 }
